@@ -7,6 +7,7 @@ module-level `LOG` list (per process); harnesses clear it before a run and read 
 from __future__ import annotations
 
 import json
+import threading
 
 import numpy as np
 
@@ -47,9 +48,10 @@ def trace(detector, **kwargs) -> None:
             str(detector.current_running_model_name),
             canon_kwargs(kwargs),
             type(detector).__name__,
+            float(detector.environment.temperature),
+            threading.get_ident(),
         )
     )
-    # (no image writer needed any more: fixed in repo 55f6f1a)
 
 
 def write_image(detector, value: int = 1, dtype: str = "uint16") -> None:
